@@ -118,7 +118,7 @@ def gen_pairs(ctx):
     pairs = []
     for _ in range(ctx.n(3500, 40000)):
         any_ok = rng.random() < 0.12
-        A = G.gen_ty(rng, depth, allow_any=any_ok)
+        A = G.gen_ty(rng, depth, allow_any=any_ok, big_unhashable=True)
         r = rng.random()
         if r < 0.12:
             B = A
@@ -128,7 +128,7 @@ def gen_pairs(ctx):
             o = G.gen_obj_for(rng, A)
             B = ("known", o)
         else:
-            B = G.gen_ty(rng, depth, allow_any=any_ok)
+            B = G.gen_ty(rng, depth, allow_any=any_ok, big_unhashable=True)
         A, B = G.norm_term(A), G.norm_term(B)
         if B[0] == "many" or A[0] == "many":
             continue
